@@ -305,6 +305,13 @@ impl<Notif> Subscription<Notif> {
 			SubscriptionKind::Method(notif) => FrontToBack::UnregisterNotification(notif),
 			SubscriptionKind::Subscription(sub_id) => FrontToBack::SubscriptionClosed(sub_id),
 		};
+		// The background task has already ended this subscription (closed by the server, lagged or the connection
+		// is gone): there is nothing left to unsubscribe, and the server may have given the ID to a newer
+		// subscription in the meantime.
+		if self.rx.is_closed_by_background() {
+			return Ok(());
+		}
+
 		// If this fails the connection was already closed i.e, already "unsubscribed".
 		let _ = self.to_back.send(msg).await;
 
@@ -451,6 +458,11 @@ impl<Notif> Drop for Subscription<Notif> {
 			Some(SubscriptionKind::Subscription(sub_id)) => FrontToBack::SubscriptionClosed(sub_id),
 			None => return,
 		};
+		// Nothing to tell the background task if it has ended this subscription already: the ID (or the method
+		// name) may belong to a newer subscription by now, which must not be closed on behalf of this one.
+		if self.rx.is_closed_by_background() {
+			return;
+		}
 		let _ = self.to_back.try_send(msg);
 	}
 }
@@ -654,6 +666,20 @@ impl SubscriptionSender {
 pub(crate) struct SubscriptionReceiver {
 	inner: mpsc::Receiver<Box<RawValue>>,
 	lagged: SubscriptionLagged,
+}
+
+impl SubscriptionReceiver {
+	/// Whether the background task has dropped its end of the channel, i.e. the subscription is over on its
+	/// side. Only asked when the subscription is being given up: what is still buffered is thrown away.
+	fn is_closed_by_background(&mut self) -> bool {
+		loop {
+			match self.inner.try_recv() {
+				Ok(_) => continue,
+				Err(mpsc::error::TryRecvError::Disconnected) => return true,
+				Err(mpsc::error::TryRecvError::Empty) => return false,
+			}
+		}
+	}
 }
 
 impl Stream for SubscriptionReceiver {
